@@ -2,10 +2,10 @@
 # usage: confirm_seed.sh <worktree> : run the agent's demo with and without its change, and the ctest suite with it
 wt=$1
 cd $wt || exit 2
-git diff -- SRC > /tmp/cs_patch.diff
-echo "--- with change: demo"; (bash seed_out/demo/run.sh > /tmp/cs_with.log 2>&1; echo "exit $?")
+git diff -- SRC > /tmp/cs_patch_$$.diff
+echo "--- with change: demo"; (bash seed_out/demo/run.sh > /tmp/cs_with_$$.log 2>&1; echo "exit $?")
 if [ -d _build ]; then echo "--- with change: ctest"; (cd _build && cmake --build . > /dev/null 2>&1 && ctest -j8 --timeout 900 2>&1 | grep "tests passed\|tests failed"); fi
-git apply -R /tmp/cs_patch.diff
-echo "--- without change: demo"; (bash seed_out/demo/run.sh > /tmp/cs_without.log 2>&1; echo "exit $?")
-git apply /tmp/cs_patch.diff
+git apply -R /tmp/cs_patch_$$.diff
+echo "--- without change: demo"; (bash seed_out/demo/run.sh > /tmp/cs_without_$$.log 2>&1; echo "exit $?")
+git apply /tmp/cs_patch_$$.diff
 git diff --stat -- SRC | tail -1
